@@ -837,11 +837,34 @@ func hints(h map[uint64]map[string][][]byte, c uint64, o *lib.Orders) {
 	}
 }
 
+// errClass condenses a canopy error ("Module: m / Code: c / Message: text") into module/code/text-with-dashes.
+func errClass(err error) string {
+	var mod, code, msg string
+	for _, l := range strings.Split(err.Error(), "\n") {
+		l = strings.TrimSpace(l)
+		switch {
+		case strings.HasPrefix(l, "Module:"):
+			mod = strings.TrimSpace(strings.TrimPrefix(l, "Module:"))
+		case strings.HasPrefix(l, "Code:"):
+			code = strings.TrimSpace(strings.TrimPrefix(l, "Code:"))
+		case strings.HasPrefix(l, "Message:"):
+			msg = strings.TrimSpace(strings.TrimPrefix(l, "Message:"))
+		}
+	}
+	if mod == "" && code == "" {
+		msg = strings.TrimSpace(err.Error())
+	}
+	if len(msg) > 60 {
+		msg = msg[:60]
+	}
+	return mod + "/" + code + "/" + strings.ReplaceAll(msg, " ", "-")
+}
+
 func (s *sim) stepRoot(txs [][]byte) bool {
 	h := s.e.RootNode().Height()
 	rec, err := s.e.StepRoot(txs)
 	if err != nil {
-		s.violation("chain-cannot-advance chain=root", "root", h, err.Error(), nil)
+		s.violation("chain-cannot-advance chain=root error="+errClass(err), "root", h, err.Error(), nil)
 		return false
 	}
 	s.rootQCs[h] = rec.QC
@@ -882,7 +905,7 @@ func (s *sim) stepNested(txs [][]byte) bool {
 	txs = append(txs, s.e.Sign(u, &fsm.MessageSend{FromAddress: addr(u), ToAddress: addr(u), Amount: 1}, nestedID, sendFee, h, ""))
 	rec, sub, err := s.e.StepNested(txs)
 	if err != nil {
-		s.violation("chain-cannot-advance chain=nested", "nested", h, err.Error(), nil)
+		s.violation("chain-cannot-advance chain=nested error="+errClass(err), "nested", h, err.Error(), nil)
 		return false
 	}
 	s.queue = append(s.queue, sub...)
